@@ -2,6 +2,7 @@ import Rbp.Model.Merkle
 import Rbp.Model.Run
 import Rbp.Proofs.Faults
 import Rbp.Proofs.RunSpec
+import Rbp.Proofs.Prefix
 /-!
 # C09 — `--verify` accepts exactly the chains whose merkle roots and prev-hash links hold
 -/
@@ -121,6 +122,16 @@ theorem verify_run_decides (o : Run.Opts) (key : Option W.Bytes) (kvs : List (W.
       exact ⟨r', f', sz j, (blk j).toR, hl', hf', hread', fun _ => hpre j hj1 hj2⟩
     obtain ⟨he, _, _, hfl⟩ := rejected_no_final o key kvs files coin ld hcoin hld hfiles hkey k m hk1 (by omega) hv r f (sz k) (blk k).toR hl hf hread hm hs
     refine ⟨⟨fun h0 => (by rw [he] at h0; omega), fun hall => absurd (hall k hk1 hk2) hbad⟩, fun _ => hfl⟩
+
+/-- **`--verify`, for every input: what was delivered had been accepted.**  No hypothesis on the data directory: under
+    `--verify`, every block that reaches a callback — in a run that later fails as well as in one that completes — satisfied
+    `verifyBlock` at its height, i.e. (by `verify_iff`) its merkle root matches, at height 0 it hashes to the genesis hash, above 0
+    its prev-hash is the indexed hash of the preceding height.  With `verify_run_decides` (every block accepted ⇒ exit 0 on a readable
+    chain) this is the `if and only if` of the property -/
+theorem verified_run_only_delivers_accepted_blocks (o : Run.Opts) (key : Option W.Bytes) (kvs : List (W.Bytes × W.Bytes)) (files : List Run.BlkFile)
+    (coin : Run.Coin) (ld : Run.Loaded) (hcoin : Run.coinOf o.coin = some coin) (hld : Run.loadIndex o kvs = .ok ld) (hv : o.verify = true) :
+    ∀ b ∈ Run.deliveredBlocks o key kvs files, Run.verifyBlock coin ld.trimmed b.blk b.height = .ok () :=
+  Run.run_exit0_all_verified o key kvs files coin ld hcoin hld hv
 
 /-- genesis hashes compiled into the binary built from the working tree = the published ones -/
 theorem genesis_table_published :
